@@ -434,6 +434,7 @@ Definition chk_C14_hist := chk_hist mon_C14.
 Definition chk_C15_hist := chk_hist mon_C15.
 Definition chk_C16_hist := chk_hist mon_C16.
 Definition chk_C17_hist := chk_hist mon_C17.
+Definition chk_C19_hist := chk_hist mon_C19.
 Definition chk_C20_hist := chk_hist mon_C20.
 (* queries: the model's answer against the implementation's *)
 Definition chk_query (model out : res (list N)) : verdict :=
